@@ -486,12 +486,13 @@ impl BsUnit {
         match self.lines.binary_search_by_key(&pc, |line| line.address) {
             Ok(mut p) => {
                 let mut place = self.find_place_by_idx(p);
-                p -= 1;
 
-                while let Some(next_place) = self.find_place_by_idx(p)
-                    && u64::from(next_place.address) == pc
+                // walk back to the first row with this address (the match may be the very first row)
+                while p > 0
+                    && let Some(prev_place) = self.find_place_by_idx(p - 1)
+                    && u64::from(prev_place.address) == pc
                 {
-                    place = Some(next_place);
+                    place = Some(prev_place);
                     p -= 1;
                 }
 
